@@ -19,7 +19,7 @@ b == A("b")
 L(s) == MkList(s)
 RECURSIVE PL(_,_)
 PL(s, t) == IF s = <<>> THEN t ELSE Cons(s[1], PL(Tail(s), t))
-Univ == { a, b, A("ab"), I(1), I(2), Fl(2), Fl(4), Fl(3), V(1), V(2), Nil,
+Univ == { a, b, A("ab"), A(""), A("B"), C("", <<a>>), I(1), I(2), Fl(2), Fl(4), Fl(3), V(1), V(2), Nil,
           L(<<a>>), L(<<a, b>>), L(<<b, a>>), L(<<a, b, a>>), L(<<V(1), b>>), L(<<a, V(2)>>), L(<<I(1), I(2)>>), L(<<V(1), V(1)>>),
           PL(<<a>>, V(3)), PL(<<a, b>>, V(3)), PL(<<V(1)>>, V(1)), PL(<<a>>, b), PL(<<V(2), b>>, V(2)),
           C("f", <<a>>), C("f", <<V(1)>>), C("f", <<L(<<a, b>>)>>), C("f", <<PL(<<a>>, V(3))>>), C("g", <<V(1), V(2)>>), C("g", <<V(2), L(<<a>>)>>),
